@@ -19,7 +19,8 @@ from ..worlds import build_world
 ID = "C10"
 ENGINE = "eqlmc-E1"
 RULE = ("cases = (universal form, condition tree, placement, universal domain, caching); all trees of depth<=d x all "
-        "universal domains of <=3 rows; non-trivial = some but not all free bindings are expected")
+        "universal domains of <=3 rows; non-trivial = some but not all free bindings are expected"
+        ' Wave 7: the universal is a sub-query correlated with the free variable (alone / before / after / nested in another for_all), the un-nested elements or an index of an attribute of the selected variable.')
 ASSUMPTIONS = ["the universal domain is non-empty (as the statement requires)", "values non-falsy (falsy: C19)"]
 
 U = V("u")
